@@ -108,7 +108,7 @@ func (x *Exec) frameObligations(exit *State, ctx *SpecCtx) error {
 		return a
 	}
 	octx := ctx.inState(old)
-	octx.li = nil
+	octx.inOld = true
 	for _, m := range x.fc.Modifies {
 		if err := x.frameAllow(octx, m, func(key string, whole bool, ref *Term) {
 			a := get(key)
